@@ -24,6 +24,7 @@ pub fn walk_cfg(rng: &mut Rng, which: &str) -> WalkCfg {
         allow_subscribe: rng.chance(1, 2),
         allow_loops: rng.chance(2, 3),
         allow_ready: rng.chance(1, 2),
+        allow_local_failures: false,
         manual_release: false,
         partial_progress_pct: *rng.pick(&[0u64, 30, 60]),
         enumerate: false,
